@@ -360,7 +360,7 @@ class CurveFitting(object):
         sx2 = self._Q
         d = n * sx2 - sx * sx
 
-        if abs(d) < TOL:
+        if abs(d) < TOL * max(1.0, abs(n * sx2)):
             raise ZeroDivisionError("Input data leads to a division by zero")
 
         a = (n * sxy - sx * sy) / d
@@ -397,7 +397,7 @@ class CurveFitting(object):
         q2 = q * q
         d = n * q * s + 2.0 * p * q * r - q2 * q - p * p * s - n * r * r
 
-        if abs(d) < TOL:
+        if abs(d) < TOL * max(1.0, abs(n * q * s)):
             raise ZeroDivisionError("Input data leads to a division by zero")
 
         a = (n * q * v + p * r * t + p * q * u
@@ -480,7 +480,7 @@ class CurveFitting(object):
 
         d = m * r * t + 2.0 * p * q * s - m * s * s - r * q * q - t * p * p
 
-        if abs(d) < TOL:
+        if abs(d) < TOL * max(1.0, abs(m * r * t)):
             raise ZeroDivisionError("Input data leads to a division by zero")
 
         a = (u * (r * t - s * s) + v * (q * s - p * t)
